@@ -136,6 +136,10 @@ pub fn c15_value(ctx: &mut Ctx, v: &MapVal) {
       if get_a("sources").unwrap_or_default() != v.sources || get_a("names").unwrap_or_default() != v.names {
         fail(ctx, "json_array_field", format!("{json_text:?} vs {v:?}"));
       }
+      // `sources` is a required member of a version-3 map: it is written even when it is empty
+      if get_a("sources").is_none() {
+        fail(ctx, "json_sources_member_missing", format!("{json_text:?}"));
+      }
       match (get_a("sourcesContent"), exp.contents.is_empty()) {
         (None, true) => {}
         (Some(c), false) if c == v.contents => {}
@@ -258,6 +262,23 @@ pub fn c15_worker(tier: &str, k: usize, n: usize, ctx: &mut Ctx) {
             }
           }
         }
+      }
+    }
+  }
+  // tables that are empty or hold only empty strings (what null entries read as)
+  for sources in [vec![], vec![""], vec!["", ""], vec!["", "x"], vec!["x", ""]] {
+    for contents in [vec![], vec![""], vec!["c"], vec!["", "c"], vec!["", ""]] {
+      for names in [vec![], vec![""], vec!["n"], vec!["", "n"]] {
+        if !st.mine() {
+          continue;
+        }
+        let mut v = base_val();
+        v.sources = sources.iter().map(|x| x.to_string()).collect();
+        v.contents = contents.iter().map(|x| x.to_string()).collect();
+        v.names = names.iter().map(|x| x.to_string()).collect();
+        ctx.states += 1;
+        ctx.count("empty_table_values");
+        c15_value(ctx, &v);
       }
     }
   }
